@@ -232,12 +232,40 @@ def prune_files_by_bounds(
         if field_id is not None and field_name:
             col_name_to_id[field_name] = field_id
 
+    # 32-bit float columns: the bounds are float32 values widened to Python
+    # floats (0.1 is stored as 0.10000000149...), while the row-level engine
+    # casts the filter value to the column type. Compare like with like, or a
+    # file whose only value is exactly the one asked for is pruned away.
+    float32_columns = {
+        str(f.get("name")) for f in schema.fields if f.get("type") == "float"
+    }
+    if float32_columns:
+        expressions = [
+            FilterExpression(e.column, e.op, _as_float32(e.value))
+            if e.column in float32_columns else e
+            for e in expressions
+        ]
+
     pruned = []
     for data_file in data_files:
         if _file_may_match(data_file, expressions, col_name_to_id):
             pruned.append(data_file)
 
     return pruned
+
+
+def _as_float32(value: Any) -> Any:
+    """Round a filter value (or each value of a list) to 32-bit float precision."""
+    import struct
+
+    if isinstance(value, (list, tuple, set)):
+        return [_as_float32(v) for v in value]
+    if isinstance(value, bool) or not isinstance(value, (int, float)):
+        return value
+    try:
+        return struct.unpack("f", struct.pack("f", value))[0]
+    except (OverflowError, struct.error):
+        return value
 
 
 def _file_may_match(
@@ -283,8 +311,11 @@ def _file_may_match(
                     return False
 
             elif expr.op == FilterOp.NE:
-                # For inequality: can only prune if entire file has same value
-                if file_min == file_max == expr.value:
+                # For inequality: can only prune if entire file has same value.
+                # Float bounds ignore NaN (pc.min/pc.max skip it), and NaN != v
+                # holds for the row-level engine: a float file with
+                # min == max == v may still contain matching NaN rows.
+                if file_min == file_max == expr.value and not isinstance(file_min, float):
                     return False
 
             elif expr.op == FilterOp.GT:
